@@ -254,6 +254,71 @@ Section FieldLaws.
   Proof. intro H; split; vfield H. Qed.
 End FieldLaws.
 
+
+(* the compound-assignment forms compute the same vector as the value forms *)
+Lemma assign_eq_value (F : Type) (O : Ops F) :
+  (forall a b, v1_add_assign O a b = v1_add O a b) /\
+  (forall a b, v1_sub_assign O a b = v1_sub O a b) /\
+  (forall a s, v1_mul_assign O a s = v1_mul_s O a s) /\
+  (forall a s, v1_div_assign O a s = v1_div_s O a s) /\
+  (forall a s, v1_rem_assign O a s = v1_rem_s O a s) /\
+  (forall a b, v1_add_assign_ew O a b = v1_add_ew O a b) /\
+  (forall a s, v1_add_assign_ews O a s = v1_add_ews O a s) /\
+  (forall a b, v1_sub_assign_ew O a b = v1_sub_ew O a b) /\
+  (forall a s, v1_sub_assign_ews O a s = v1_sub_ews O a s) /\
+  (forall a b, v1_mul_assign_ew O a b = v1_mul_ew O a b) /\
+  (forall a s, v1_mul_assign_ews O a s = v1_mul_ews O a s) /\
+  (forall a b, v1_div_assign_ew O a b = v1_div_ew O a b) /\
+  (forall a s, v1_div_assign_ews O a s = v1_div_ews O a s) /\
+  (forall a b, v1_rem_assign_ew O a b = v1_rem_ew O a b) /\
+  (forall a s, v1_rem_assign_ews O a s = v1_rem_ews O a s) /\
+  (forall a b, v2_add_assign O a b = v2_add O a b) /\
+  (forall a b, v2_sub_assign O a b = v2_sub O a b) /\
+  (forall a s, v2_mul_assign O a s = v2_mul_s O a s) /\
+  (forall a s, v2_div_assign O a s = v2_div_s O a s) /\
+  (forall a s, v2_rem_assign O a s = v2_rem_s O a s) /\
+  (forall a b, v2_add_assign_ew O a b = v2_add_ew O a b) /\
+  (forall a s, v2_add_assign_ews O a s = v2_add_ews O a s) /\
+  (forall a b, v2_sub_assign_ew O a b = v2_sub_ew O a b) /\
+  (forall a s, v2_sub_assign_ews O a s = v2_sub_ews O a s) /\
+  (forall a b, v2_mul_assign_ew O a b = v2_mul_ew O a b) /\
+  (forall a s, v2_mul_assign_ews O a s = v2_mul_ews O a s) /\
+  (forall a b, v2_div_assign_ew O a b = v2_div_ew O a b) /\
+  (forall a s, v2_div_assign_ews O a s = v2_div_ews O a s) /\
+  (forall a b, v2_rem_assign_ew O a b = v2_rem_ew O a b) /\
+  (forall a s, v2_rem_assign_ews O a s = v2_rem_ews O a s) /\
+  (forall a b, v3_add_assign O a b = v3_add O a b) /\
+  (forall a b, v3_sub_assign O a b = v3_sub O a b) /\
+  (forall a s, v3_mul_assign O a s = v3_mul_s O a s) /\
+  (forall a s, v3_div_assign O a s = v3_div_s O a s) /\
+  (forall a s, v3_rem_assign O a s = v3_rem_s O a s) /\
+  (forall a b, v3_add_assign_ew O a b = v3_add_ew O a b) /\
+  (forall a s, v3_add_assign_ews O a s = v3_add_ews O a s) /\
+  (forall a b, v3_sub_assign_ew O a b = v3_sub_ew O a b) /\
+  (forall a s, v3_sub_assign_ews O a s = v3_sub_ews O a s) /\
+  (forall a b, v3_mul_assign_ew O a b = v3_mul_ew O a b) /\
+  (forall a s, v3_mul_assign_ews O a s = v3_mul_ews O a s) /\
+  (forall a b, v3_div_assign_ew O a b = v3_div_ew O a b) /\
+  (forall a s, v3_div_assign_ews O a s = v3_div_ews O a s) /\
+  (forall a b, v3_rem_assign_ew O a b = v3_rem_ew O a b) /\
+  (forall a s, v3_rem_assign_ews O a s = v3_rem_ews O a s) /\
+  (forall a b, v4_add_assign O a b = v4_add O a b) /\
+  (forall a b, v4_sub_assign O a b = v4_sub O a b) /\
+  (forall a s, v4_mul_assign O a s = v4_mul_s O a s) /\
+  (forall a s, v4_div_assign O a s = v4_div_s O a s) /\
+  (forall a s, v4_rem_assign O a s = v4_rem_s O a s) /\
+  (forall a b, v4_add_assign_ew O a b = v4_add_ew O a b) /\
+  (forall a s, v4_add_assign_ews O a s = v4_add_ews O a s) /\
+  (forall a b, v4_sub_assign_ew O a b = v4_sub_ew O a b) /\
+  (forall a s, v4_sub_assign_ews O a s = v4_sub_ews O a s) /\
+  (forall a b, v4_mul_assign_ew O a b = v4_mul_ew O a b) /\
+  (forall a s, v4_mul_assign_ews O a s = v4_mul_ews O a s) /\
+  (forall a b, v4_div_assign_ew O a b = v4_div_ew O a b) /\
+  (forall a s, v4_div_assign_ews O a s = v4_div_ews O a s) /\
+  (forall a b, v4_rem_assign_ew O a b = v4_rem_ew O a b) /\
+  (forall a s, v4_rem_assign_ews O a s = v4_rem_ews O a s).
+Proof. repeat split. Qed.
+
 (* The laws hold for the instances the correspondence check executes and for
    the integer scalar types (Z: no overflow). *)
 Definition ZOps : Ops Z :=
